@@ -210,6 +210,22 @@ pub fn run16(em: &mut Emitter, rng: &mut Rng, thorough: bool) {
             decode_case(em, 0, &v, Some((false, vec![], vec![])));
         }
     }
+    // re-encoding where the flattened content and the stored segmentation fall on different sides of a
+    // length-octet threshold (127/128, 255/256, 65535/65536)
+    let mut ns: Vec<usize> = (118..=131).chain(244..=259).collect();
+    if thorough { ns.extend(65520..=65537usize); }
+    for n in ns {
+        let bytes: Vec<u8> = (0..n).map(|i| (i * 7 + 1) as u8).collect();
+        let k = n / 3;
+        let layouts = [Os::Cons(false, vec![Os::Prim(bytes.clone())]),
+                       Os::Cons(false, vec![Os::Prim(bytes[..k].to_vec()), Os::Prim(bytes[k..].to_vec())]),
+                       Os::Cons(false, vec![Os::Prim(bytes[..1].to_vec()), Os::Cons(false, vec![Os::Prim(bytes[1..k].to_vec()), Os::Prim(vec![])]), Os::Prim(bytes[k..].to_vec())]),
+                       Os::Cons(false, vec![Os::Cons(true, vec![Os::Prim(bytes[..k].to_vec())]), Os::Prim(bytes[k..].to_vec())])];
+        for o in &layouts {
+            let mut data = Vec::new(); os_encode(o, 0x04, &mut data);
+            for m2 in 0..3u8 { encode_case(em, 0, &data, m2, false, &bytes); }
+        }
+    }
     // CER shapes: segment sizes from {0, 1, 999, 1000, 1001}, up to 3 segments, all orders
     let sizes = [0usize, 1, 999, 1000, 1001];
     let mut shapes: Vec<Vec<usize>> = vec![vec![]];
